@@ -431,11 +431,15 @@ func cmdCheck(mode string, argv []string) int {
 		os.WriteFile(filepath.Join(*verif, "baseline", *prop+".nopanic.json"), append(b2, '\n'), 0o644)
 		fmt.Printf("baseline: %d functions are panic-free as a whole\n", len(clean))
 		fmt.Printf("baseline: %d safety obligations discharged of %d\n", len(names), countSafety(obls))
+		var open []string
 		for _, o := range obls {
-			if isSafetyKind(o.Kind) && o.Status != "discharged" && *verbose {
-				fmt.Printf("  open: %s [%s] %s\n", o.Name, o.Status, o.Pos)
+			if isSafetyKind(o.Kind) && o.Status != "discharged" {
+				open = append(open, fmt.Sprintf("%s [%s] %s", o.Name, o.Status, o.Pos))
 			}
 		}
+		sort.Strings(open)
+		// for the record only (never read by a check): the fault sites not proved safe on the pinned tree
+		os.WriteFile(filepath.Join(*verif, "baseline", *prop+".open.txt"), []byte(strings.Join(open, "\n")+"\n"), 0o644)
 		return 0
 	}
 	if *outDir == "" {
